@@ -597,3 +597,71 @@ func init() {
 		return sched.Config{Bounds: b, Iterative: true, MaxSteps: 100000}, c08raceBody
 	}})
 }
+
+// ---------------------------------------------------------------------------
+// C09 (S) controller: Stop and DrainListeners racing with updates being processed.
+// oracle    Stop returns; every processor the controller ever started is stopped; nothing is running afterwards;
+//           DrainListeners returned
+// ---------------------------------------------------------------------------
+
+func c09controllerBody() {
+	w := c08setup(false)
+	w.ctl.Start()
+	for _, o := range []c08op{{Kind: "dep+", Svc: "s1"}, {Kind: "cfg", Svc: "s1", Cfg: "v1"}, {Kind: "ep", Svc: "s1", Added: "a"}} {
+		w.feed(o)
+	}
+	sched.WaitQuiescent()
+	action := sched.Choose(sched.ClsInput, 3, "action")
+	stopped, drained := false, false
+	sched.GoNamed("updater", func() {
+		for _, o := range []c08op{{Kind: "dep+", Svc: "s2"}, {Kind: "cfg", Svc: "s2", Cfg: "v2"}, {Kind: "ep", Svc: "s2", Added: "b"}, {Kind: "ep", Svc: "s1", Added: "b"}} {
+			w.feed(o)
+		}
+	})
+	sched.GoNamed("stopper", func() {
+		switch action {
+		case 0:
+			w.ctl.Stop()
+			stopped = true
+		case 1:
+			w.ctl.DrainListeners()
+			drained = true
+			w.ctl.Stop()
+			stopped = true
+		case 2:
+			w.ctl.Stop()
+			w.ctl.Stop() // a second Stop must return as well
+			stopped = true
+		}
+	})
+	sched.WaitQuiescent()
+	_ = drained
+	if !stopped {
+		where := ""
+		for _, b := range sched.Blocked() {
+			if b.Name == "stopper" {
+				where = b.Kind
+			}
+		}
+		sched.Fail("controller-stop-never-returns", fmt.Sprintf("action %d: stopper parked in %s", action, where))
+	}
+	if n := len(w.ctl.GetAllProcs()); n != 0 {
+		sched.Fail("processors-left-after-controller-stop", fmt.Sprintf("%d processors still registered", n))
+	}
+	for _, p := range w.all {
+		if p.started && !p.stopped {
+			sched.Fail("processor-not-stopped-by-controller-stop", p.name)
+		}
+	}
+	sched.SetOutcome(fmt.Sprintf("action=%d procs=%d", action, len(w.all)))
+}
+
+func init() {
+	sched.Register(&sched.Scenario{Name: "C09/controller", Setup: func(tier string) (sched.Config, func()) {
+		b := sched.Bounds{P: 2, F: 2, Sel: 1}
+		if tier == "thorough" {
+			b = sched.Bounds{P: 3, F: 2, Sel: 2}
+		}
+		return sched.Config{Bounds: b, Iterative: true, MaxSteps: 100000}, c09controllerBody
+	}})
+}
